@@ -388,15 +388,57 @@ func (og *OpGen) Next(boards []CBoard, bi int) Op {
 		og.count("op:bad-board")
 	}
 	objID := func() (string, bool) {
+		// on a nested board: elements that are inherited AND referenced in the board's own block, half of the time
+		if og.R.Intn(2) == 0 {
+			var mix []string
+			for _, o := range g.Objs {
+				if o.Mix {
+					mix = append(mix, o.ID)
+				}
+			}
+			if len(mix) > 0 {
+				og.count("op:target-inherited-and-local")
+				return mix[og.R.Intn(len(mix))], true
+			}
+		}
 		if len(g.Objs) == 0 || og.R.Intn(25) == 0 {
 			og.count("op:nonexistent-target")
 			return qname(og.name()) + "." + qname(og.name()), false
 		}
 		return g.Objs[og.R.Intn(len(g.Objs))].ID, true
 	}
+	// containers are where delete / move have to work (hoisting, collisions): prefer them half of the time
+	containerID := func() (string, bool) {
+		var cs []string
+		for _, o := range g.Objs {
+			for _, c := range g.Objs {
+				if len(c.Path) == len(o.Path)+1 && strings.HasPrefix(strings.ToLower(c.ID), strings.ToLower(o.ID)+".") {
+					cs = append(cs, o.ID)
+					break
+				}
+			}
+		}
+		if len(cs) == 0 || og.R.Intn(2) == 0 {
+			return objID()
+		}
+		og.count("op:container-target")
+		return cs[og.R.Intn(len(cs))], true
+	}
 	edgeID := func() (string, bool) {
 		if len(g.Edges) == 0 {
 			return "(nosrc -> nodst)[0]", false
+		}
+		if og.R.Intn(2) == 0 {
+			var mix []string
+			for _, e := range g.Edges {
+				if e.Mix {
+					mix = append(mix, e.ID)
+				}
+			}
+			if len(mix) > 0 {
+				og.count("op:target-inherited-and-local")
+				return mix[og.R.Intn(len(mix))], true
+			}
 		}
 		if og.R.Intn(25) == 0 {
 			e := g.Edges[og.R.Intn(len(g.Edges))]
@@ -438,6 +480,22 @@ func (og *OpGen) Next(boards []CBoard, bi int) Op {
 		} else {
 			id, _ = objID()
 		}
+		// an arrowhead that carries a label: set one of its sub-keys (label via primary value, then `.shape`)
+		if og.R.Intn(5) == 0 {
+			for _, e := range g.Edges {
+				for _, x := range e.Attrs {
+					if x[0] == "source-arrowhead.label" || x[0] == "target-arrowhead.label" {
+						side := strings.TrimSuffix(x[0], ".label")
+						op.Target = e.ID
+						op.Attr = side + ".shape"
+						op.Key = e.ID + "." + op.Attr
+						op.Value = sp([]string{"diamond", "circle", "arrow"}[og.R.Intn(3)])
+						og.count("set:arrowhead-subkey-after-label")
+						return op
+					}
+				}
+			}
+		}
 		op.Target = id
 		switch x := og.R.Intn(10); {
 		case x < 3: // label through the primary value
@@ -471,6 +529,22 @@ func (og *OpGen) Next(boards []CBoard, bi int) Op {
 				og.count("set:arrowhead-primary-label")
 			} else if onEdge {
 				a := setEdgeAttrs[og.R.Intn(len(setEdgeAttrs))]
+				// an arrowhead that already has a label: address one of its sub-keys half of the time
+				for _, e := range g.Edges {
+					if e.ID == id && og.R.Intn(2) == 0 {
+						for _, x := range e.Attrs {
+							if x[0] == "source-arrowhead.label" || x[0] == "target-arrowhead.label" {
+								side := strings.TrimSuffix(x[0], ".label")
+								for _, cand := range setEdgeAttrs {
+									if cand.attr == side+".shape" {
+										a = cand
+									}
+								}
+								og.count("set:arrowhead-subkey-after-label")
+							}
+						}
+					}
+				}
 				op.Attr = a.attr
 				op.Key = id + "." + a.attr
 				op.Value = sp(a.vals[og.R.Intn(len(a.vals))])
@@ -491,7 +565,7 @@ func (og *OpGen) Next(boards []CBoard, bi int) Op {
 	case "delete":
 		switch x := og.R.Intn(10); {
 		case x < 5:
-			op.Key, _ = objID()
+			op.Key, _ = containerID()
 			og.count("delete:object")
 		case x < 8 && len(g.Edges) > 0:
 			op.Key, _ = edgeID()
@@ -554,7 +628,7 @@ func (og *OpGen) Next(boards []CBoard, bi int) Op {
 			og.count("rename:object")
 		}
 	case "move":
-		op.Key, _ = objID()
+		op.Key, _ = containerID()
 		var nm string
 		segs := strings.Split(op.Key, ".")
 		nm = segs[len(segs)-1]
